@@ -15,6 +15,9 @@ int main() {
   must_throw("rule for an undeclared nonterminal", [] { auto p = parser(S, terms('a'), nterms(S), rules(S('a') >= [](char) { return 0; }, A('a') >= [](char) { return 0; })); (void)p; });
   must_throw("rule with an undeclared term", [] { auto p = parser(S, terms('a'), nterms(S), rules(S('a', 'b') >= [](char, char) { return 0; })); (void)p; });
   must_throw("rule with an undeclared string term", [] { auto p = parser(S, terms('a', "ab"), nterms(S), rules(S("abc") >= [](std::string_view) { return 0; })); (void)p; });
+  { static constexpr char p1[] = "[0-9]+"; static constexpr char p2[] = "[a-z]+";
+    static constexpr regex_term<p1> number("tok"); static constexpr regex_term<p2> word("tok");     // same custom NAME, different patterns: different terms
+    must_throw("rule with an undeclared regex term whose name equals a declared term's name", [] { auto p = parser(S, terms(number), nterms(S), rules(S(word) >= [](std::string_view) { return 0; })); (void)p; }); }
   must_throw("undeclared root", [] { auto p = parser(B, terms('a'), nterms(S), rules(S('a') >= [](char) { return 0; })); (void)p; });
   must_throw("empty nonterminal name", [] { nterm<int> e(""); (void)e; });
   // declared symbols with names that are prefixes of each other are distinct symbols
